@@ -556,6 +556,14 @@ func (fx *FX) vacuity() {
 	o := &Obligation{Name: fmt.Sprintf("%s.%s/vacuity:some-return-reachable", fx.u.Name, fx.name), Kind: "vacuity", Func: fx.name, Unit: fx.u.Name,
 		Prefix: len(fx.lines), Guard: or(fx.retCovers...), Goal: tTrue, Extra: tTrue, fx: fx, Expected: "sat", Src: "some return is reachable under the precondition and all assumptions"}
 	fx.obls = append(fx.obls, o)
+	// and per clause `A ==> B`: A holds at some return (otherwise the clause says nothing; this is what exposes a
+	// contradictory assumption that kills only some paths)
+	for _, lab := range fx.anteOrder {
+		o := &Obligation{Name: fmt.Sprintf("%s.%s/vacuity:antecedent:%s", fx.u.Name, fx.name, lab), Kind: "vacuity", Func: fx.name, Unit: fx.u.Name,
+			Prefix: len(fx.lines), Guard: or(fx.anteCovers[lab]...), Goal: tTrue, Extra: tTrue, fx: fx, Expected: "sat",
+			Src: "the antecedent of ensures[" + lab + "] is satisfiable at some return under all assumptions"}
+		fx.obls = append(fx.obls, o)
+	}
 }
 
 func (fx *FX) obligeTrivial(kind, label string, goal T, pos interface{ IsValid() bool }, src string) {
